@@ -144,6 +144,87 @@ def ltf_step(W, cfg, bound=None, use_lpsd=False, prior=False):
     return I, env, env1, post, args
 
 
+# ---------------------------------------------------------------------------- whole plans at a small concrete record length
+def ob_whole_plan(W, sched, N, Jdes, Lmin, fs_value=None):
+    """the WHOLE scheduler function executed path by path (fork mode: every branch and loop test decided per path) for a small concrete
+    record length N, concrete Jdes with (N/2)**(1/Jdes) exact and concrete Lmin, and SYMBOLIC fs, olap, bmin, Kdes: every per-bin clause
+    of C02/C03/C04 on the returned plan.  Independent of the shape of the code (no cut points, no loop-body harness): this is what
+    reaches bulk emission of several bins, early exits and fast paths; the step obligations cover unbounded N."""
+    fs = W.real("fs"); olap = W.real("olap"); bmin = W.real("bmin"); Kdes = W.int("Kdes", lo=1, hi=6)
+    if fs_value is not None:
+        fs = (SR(z3.RealVal(str(F(fs_value)))) if W.sym else float(fs_value))     # concrete sampling rate (the symbolic one makes every term a quotient)
+    cfg = dict(N=N, fs=fs, olap=olap, bmin=bmin, Lmin=Lmin, Jdes=Jdes, Kdes=Kdes)
+    if not W.sym:
+        kw = dict(N=N, fs=float(fs), olap=float(olap), bmin=float(bmin), Lmin=Lmin, Jdes=Jdes, Kdes=int(Kdes))
+        if not (kw["fs"] > 0 and 0 <= kw["olap"] < 1 and 1 <= kw["bmin"] < N / 2):
+            return
+        fn = getattr(S(), {"ltf": "ltf_plan", "lpsd": "lpsd_plan", "vec": "vectorized_ltf_plan"}[sched])
+        rec = {"kw": kw, "bmin_eff": 1.0 if sched == "lpsd" else kw["bmin"], "Lmin_eff": 1 if sched == "lpsd" else Lmin}
+        try:
+            rec["plan"] = fn(**kw)
+        except Exception as e:
+            rec["raised"] = repr(e)
+        res = plan_checks(rec, sched)
+        W.resolver = lambda name: res.get(ALIAS.get(name, name), res.get(name))
+        for k, v in res.items():
+            W.goal(k, v)
+        return
+    W.assume(fs > 0); W.assume(olap >= 0); W.assume(olap < 1); W.assume(bmin >= 1); W.assume(bmin * 2 < N)
+    W.nice += [olap.t * 8 == z3.ToReal(z3.Int("nice!q")), bmin.t * 4 == z3.ToReal(z3.Int("nice!qb"))]
+    Sm = S()
+    name = {"ltf": "ltf_plan", "lpsd": "lpsd_plan", "vec": "vectorized_ltf_plan"}[sched]
+    G = glob_for(Sm)
+    I = astx.Interp(G, loop_bound=64)
+    I.fork_ifs = True
+    W.run.concretize_ints = True
+    W.run.concrete_masks = True          # comparisons of arrays are decided element by element: masks are ordinary boolean arrays on each path
+    from symx import solve as _solve
+    _solve.INPROC["on"] = True
+    # same-module callees (lpsd_plan -> ltf_plan, helpers) are interpreted too
+    for nm, obj in list(vars(Sm).items()):
+        if callable(obj) and getattr(obj, "__module__", None) == Sm.__name__ and hasattr(obj, "__code__"):
+            try:
+                G[nm] = astx._Closure(I, astx.get_function_ast(obj), {})
+            except Exception:
+                pass
+    p = G[name](**cfg)
+    bmin_e, Lmin_e = (1, 1) if sched == "lpsd" else (bmin, Lmin)
+    f, r, b, L, K, navg, D, O = (p[k] for k in ("f", "r", "b", "L", "K", "navg", "D", "O"))
+    nf = len(f)
+    W.goal("C02/noraise", True)
+    W.goal("C03/f0=bmin*fs/N", nf > 0 and W.eq(f[0], bmin_e * fs / N))
+    xov = 1 - olap
+    for j in range(nf):
+        Lj, Kj = int(L[j]), int(K[j])
+        d = [int(v) for v in D[j]]
+        W.goal("C02/L-range", max(1, Lmin_e) <= Lj <= N, bin=j)
+        W.goal("C02/K=navg=len(D)", Kj >= 1 and Kj == int(navg[j]) == len(d), bin=j)
+        W.goal("C02/K=1=>L=N", Kj != 1 or Lj == N, bin=j)
+        W.goal("C02/starts-in-range", len(d) > 0 and min(d) >= 0 and max(d) + Lj <= N and d[0] == 0, bin=j)
+        W.goal("C02/starts-increasing", all(d[i + 1] > d[i] for i in range(len(d) - 1)), bin=j)
+        W.goal("C02/last-start=N-L", len(d) <= 1 or d[-1] == N - Lj, bin=j)
+        W.goal("C03/r*L=fs", W.eq(r[j] * Lj, fs), bin=j)
+        W.goal("C03/b=f*L/fs", W.eq(b[j], f[j] * Lj / fs), bin=j)
+        W.goal("C03/f<nyquist", f[j] * 2 < fs, bin=j)
+        if j + 1 < nf:
+            W.goal("C03/next=f+r", W.eq(f[j + 1], f[j] + r[j]), bin=j)
+            W.goal("C04/L-nonincreasing", int(L[j + 1]) <= Lj, bin=j)
+            W.goal("C04/K-nondecreasing", int(K[j + 1]) >= Kj, bin=j)
+        ideal = 1 + (N - Lj) / (xov * Lj)
+        cap = N - Lj + 1
+        W.goal("C04/K=nearest(capped)", W.Or(W.And(Kj == cap, ideal + HALF >= cap), W.And(Kj <= cap, Kj - ideal <= HALF, ideal - Kj <= HALF)), bin=j)
+        if len(d) > 1:
+            sh = F(N - Lj, len(d) - 1)
+            W.goal("C04/even-spread", all(abs(d[i] - i * sh) <= F(1, 2) for i in range(len(d))), bin=j)
+            real_o = (Lj - F(d[-1] - d[0], len(d) - 1)) / Lj
+            W.goal("C04/O=realised-overlap", W.eq(O[j], real_o), bin=j)
+        else:
+            W.goal("C04/O=realised-overlap", W.eq(O[j], 0), bin=j)
+    # the loop stops only when the next state is beyond Nyquist: the last bin's successor is >= fs/2 (completeness of the grid)
+    if nf:
+        W.goal("C03/grid-reaches-nyquist", (f[nf - 1] + r[nf - 1]) * 2 >= fs)
+
+
 # ---------------------------------------------------------------------------- monotonicity of the step map, proved as a chain
 def _rounding_cuts(body):
     """indices of the top-level statements `name = ...int/round...(...)` of the loop body, with the loop-assigned names each one reads"""
